@@ -1,6 +1,6 @@
 (* C14 — Solver helpers that build trees to a target meet that target.
    Only statements + `exact`; proofs are in Grammar/FixedLenFacts.v, FixedLenCountMore.v,
-   FixedLenPruneMore.v, FixedLenInsertMore.v.  Model: Grammar/FixedLen.v
+   FixedLenPruneMore.v, FixedLenInsertMore.v, IntValueFacts.v.  Model: Grammar/FixedLen.v, IntValue.v
    (create_fixed_length_tree = cflt, compute_nullable_nonterminals = nullables, count = count_decide /
    count_var / finish_candidate / few).  The model is tied to /repo by harness/c14.py.
 
@@ -22,7 +22,22 @@
                                  increases curr_len or, keeping it, has no nonterminal): with fuel above
                                  the computable bound fuel_bound the model never answers OutOfFuel.
                                  The guard is sufficient, not necessary.
-   STILL MISSING: int_value_sound (extract_model_value_int_var is not modelled); an exact
+   FULL (proof extension 3, Grammar/IntValue.v + IntValueFacts.v; extract_model_value_int_var):
+     int_value_sound             for every canonical grammar (<start> on no right-hand side), nonterminal
+                                 nt <> <start>, integer z, EVERY answer of the Z3 query (oracle) and every
+                                 fuel: a returned tree is a valid closed derivation tree rooted in nt whose
+                                 string denotes z (intval) — composition with C10's Earley model
+     supported_denotes, py_str_denotes, meets_int_decides (acceptance test of the check)
+     int_value_runtime_iff / _outcomes (with the C10 chart fuel bound; hfuel of the check satisfies it):
+                                 RuntimeError <-> str(z) not in L(nt) and the query is not sat
+   PARTIAL / under explicit premises on the Z3 query:
+     int_value_no_syntaxerr      premise oracle_sound (sat answers are words of L(nt))
+     int_value_runtime_complete  premise oracle_complete (not sat only if no supported spelling in L(nt))
+     int_value_ok_iff_partial    both premises + C10's out-of-fuel outcome of the tree enumeration excluded
+     int_value_runtime_not_complete   oracle_complete FAILS on /repo for the non-regular
+                                 <z> ::= "0"<z>"0" | "1", z = 100 (RuntimeError although "00100" is in L)
+   STILL MISSING: the dispatcher around extract_model_value_int_var and nt = <start> (ISLaSolver.parse then
+     also runs the semantic check); an exact
      characterisation of the grammars on which the search terminates; negate=True branches of count;
      the heapq order of count's candidates. *)
 From ISLA Require Import Insert InsertFacts InsertSelfMore.
@@ -307,3 +322,151 @@ Example C14_cflt_terminates_nonvacuous :
   grow_okb dv_g (nullables dv_g) = false.
 Proof. exact (conj (proj1 grow_ok_ex) (conj (proj1 (proj2 grow_ok_ex)) (conj (proj2 (proj2 grow_ok_ex)) eq_refl))). Qed.
 Print Assumptions C14_cflt_terminates_nonvacuous.
+
+(* ==================================================================================== *)
+(* ---- extract_model_value_int_var: numeric model value -> derivation tree (int_value_sound) ---- *)
+(* Model Grammar/IntValue.v:  int_value fxA fxB fuelf g oracle nt z                          *)
+(*   = ISLaSolver.extract_model_value_int_var for an int variable of type nt whose Z3 value *)
+(*     is z: parse str(z) with ISLaSolver.parse (C10's Earley model on the specialised      *)
+(*     grammar); on SyntaxError ask Z3 for  maybe_plus in "+"?, padding in "0"*  such that  *)
+(*     (maybe_plus | "-") padding str(|z|) matches the nonterminal's regular expression     *)
+(*     (ORACLE: `oracle nt z = None` = not sat -> RuntimeError; `Some (plus, k)`), parse it. *)
+(*   supported z w  :=  exists plus k, w = cand z plus k      ([+]0*digits(z) / -0*digits(|z|)) *)
+(*   intval w       :=  optional sign, then >= 1 decimal digits, read as an integer          *)
+(*   fxA / fxB: pinned or repaired form of the parser's two C10 defect spots (all four).    *)
+(* ==================================================================================== *)
+From ISLA Require Import IntValue IntValueFacts.
+
+(* int_value_sound — FULL: for every grammar in canonical form whose <start> is on no right-hand
+   side, every defined nonterminal nt <> <start>, every integer z, EVERY answer of the Z3 query
+   (any oracle, no assumption on the regular expression) and every fuel: a returned tree is a valid
+   closed derivation tree of the grammar rooted in nt, and its string denotes z (and is one of the
+   supported spellings of z, and a word of L(nt)). *)
+Theorem C14_int_value_sound : forall g fxA fxB fuelf oracle nt,
+  canonical_form g = true -> NoDup (map fst g) -> occurs_rhs g START = false ->
+  defined g nt = true -> nt <> START ->
+  forall z t, int_value fxA fxB fuelf g oracle nt z = Ok t ->
+  wf_tree g t /\ closedb t = true /\ lbl t = nt /\ intval (yield t) = Some z /\
+  supported z (yield t) /\ L g nt (yield t).
+Proof. exact int_value_sound. Qed.
+Print Assumptions C14_int_value_sound.
+
+(* every string the code may try denotes z; str(z) is one of them *)
+Theorem C14_supported_denotes : forall z w, supported z w -> intval w = Some z.
+Proof. exact supported_intval. Qed.
+Print Assumptions C14_supported_denotes.
+
+Theorem C14_py_str_denotes : forall z, intval (py_str_Z z) = Some z /\ supported z (py_str_Z z).
+Proof. exact (fun z => conj (intval_py_str z) (supported_py_str z)). Qed.
+Print Assumptions C14_py_str_denotes.
+
+(* the acceptance test applied by the check to every tree the implementation returns decides
+   the property *)
+Theorem C14_meets_int_decides : forall g nt z t, meets_int g nt z t = true <->
+  wf_tree g t /\ closedb t = true /\ lbl t = nt /\ intval (yield t) = Some z.
+Proof. exact meets_int_spec. Qed.
+Print Assumptions C14_meets_int_decides.
+
+(* "RuntimeError otherwise" — with enough fuel for the parser's chart (C10 fuel bound):
+   RuntimeError is raised exactly when str(z) is not in L(nt) and the Z3 query is not sat *)
+Theorem C14_int_value_runtime_iff : forall g fxA fxB fuelf oracle nt,
+  canonical_form g = true -> NoDup (map fst g) -> occurs_rhs g START = false ->
+  defined g nt = true -> nt <> START ->
+  (forall w, EarleyFuel.fuel_bound (cgram (SemPredsParser.mk_grammar g nt) START) (length w) <= fuelf w) ->
+  forall z, int_value fxA fxB fuelf g oracle nt z = Raise RuntimeErr <->
+            (~ L g nt (py_str_Z z) /\ oracle nt z = None).
+Proof. exact int_value_runtime_iff. Qed.
+Print Assumptions C14_int_value_runtime_iff.
+
+(* all outcomes: a tree | RuntimeError (not sat) | SyntaxError of the second, unguarded parse
+   (Z3 answered with a candidate outside the language) | out of fuel in the tree enumeration
+   (only for members; the open part of C10) *)
+Theorem C14_int_value_outcomes : forall g fxA fxB fuelf oracle nt,
+  canonical_form g = true -> NoDup (map fst g) -> occurs_rhs g START = false ->
+  defined g nt = true -> nt <> START ->
+  (forall w, EarleyFuel.fuel_bound (cgram (SemPredsParser.mk_grammar g nt) START) (length w) <= fuelf w) ->
+  forall z,
+    (exists t, int_value fxA fxB fuelf g oracle nt z = Ok t)
+    \/ (int_value fxA fxB fuelf g oracle nt z = Raise RuntimeErr /\ ~ L g nt (py_str_Z z) /\ oracle nt z = None)
+    \/ (int_value fxA fxB fuelf g oracle nt z = Raise SyntaxErr /\ ~ L g nt (py_str_Z z) /\
+        exists p k, oracle nt z = Some (p, k) /\ ~ L g nt (cand z p k))
+    \/ (int_value fxA fxB fuelf g oracle nt z = Raise OutOfFuel /\ exists w, supported z w /\ L g nt w).
+Proof. exact int_value_outcomes. Qed.
+Print Assumptions C14_int_value_outcomes.
+
+(* the fuel the check gives the model (hfuel g w = harness_fuel g |w|, from the ORIGINAL grammar)
+   satisfies the fuel premise; int_guard is the boolean form of the five hypotheses *)
+Theorem C14_int_hfuel_ok : forall g nt, canonical_form g = true -> defined g nt = true -> nt <> START ->
+  forall w, EarleyFuel.fuel_bound (cgram (SemPredsParser.mk_grammar g nt) START) (length w) <= hfuel g w.
+Proof. exact hfuel_ok. Qed.
+Print Assumptions C14_int_hfuel_ok.
+
+Theorem C14_int_guard_spec : forall g nt, int_guard g nt = true ->
+  canonical_form g = true /\ NoDup (map fst g) /\ occurs_rhs g START = false /\ defined g nt = true /\ nt <> START.
+Proof. exact int_guard_spec. Qed.
+Print Assumptions C14_int_guard_spec.
+
+Theorem C14_int_value_runtime_iff_hfuel : forall g fxA fxB oracle nt, int_guard g nt = true ->
+  forall z, int_value fxA fxB (hfuel g) g oracle nt z = Raise RuntimeErr <->
+            (~ L g nt (py_str_Z z) /\ oracle nt z = None).
+Proof. exact int_value_runtime_iff_hf. Qed.
+Print Assumptions C14_int_value_runtime_iff_hfuel.
+
+(* premises about the Z3 query (external behaviour, explicit hypotheses):
+   oracle_sound    : a sat answer gives a candidate in L(nt)  (L(regex) subseteq L(grammar), Z3 model right)
+   oracle_complete : not sat only if NO supported spelling of z is in L(nt)
+   Under oracle_sound the unguarded second parse never raises SyntaxError: *)
+Theorem C14_int_value_no_syntaxerr : forall g fxA fxB fuelf oracle nt,
+  canonical_form g = true -> NoDup (map fst g) -> occurs_rhs g START = false ->
+  defined g nt = true -> nt <> START ->
+  (forall w, EarleyFuel.fuel_bound (cgram (SemPredsParser.mk_grammar g nt) START) (length w) <= fuelf w) ->
+  forall z, oracle_sound g oracle nt -> int_value fxA fxB fuelf g oracle nt z <> Raise SyntaxErr.
+Proof. exact int_value_no_syntaxerr. Qed.
+Print Assumptions C14_int_value_no_syntaxerr.
+
+(* under oracle_complete a RuntimeError means that no supported spelling of z is in the language *)
+Theorem C14_int_value_runtime_complete : forall g fxA fxB fuelf oracle nt,
+  canonical_form g = true -> NoDup (map fst g) -> occurs_rhs g START = false ->
+  defined g nt = true -> nt <> START ->
+  (forall w, EarleyFuel.fuel_bound (cgram (SemPredsParser.mk_grammar g nt) START) (length w) <= fuelf w) ->
+  forall z, oracle_complete g oracle nt ->
+  int_value fxA fxB fuelf g oracle nt z = Raise RuntimeErr -> forall w, supported z w -> ~ L g nt w.
+Proof. exact int_value_runtime_complete. Qed.
+Print Assumptions C14_int_value_runtime_complete.
+
+(* PARTIAL (two oracle premises + the out-of-fuel outcome of C10's tree enumeration excluded):
+   a tree is returned iff some supported spelling of z is a word of L(nt) *)
+Theorem C14_int_value_ok_iff_partial : forall g fxA fxB fuelf oracle nt,
+  canonical_form g = true -> NoDup (map fst g) -> occurs_rhs g START = false ->
+  defined g nt = true -> nt <> START ->
+  (forall w, EarleyFuel.fuel_bound (cgram (SemPredsParser.mk_grammar g nt) START) (length w) <= fuelf w) ->
+  forall z, oracle_sound g oracle nt -> oracle_complete g oracle nt ->
+  int_value fxA fxB fuelf g oracle nt z <> Raise OutOfFuel ->
+  ((exists t, int_value fxA fxB fuelf g oracle nt z = Ok t) <-> exists w, supported z w /\ L g nt w).
+Proof. exact int_value_ok_iff_partial. Qed.
+Print Assumptions C14_int_value_ok_iff_partial.
+
+(* non-vacuity: the grammar of extract_model_value's docstring (<int> ::= <sign> "00" <lead> <digits>):
+   5 -> "+005", -12 -> "-0012" (oracle: plus, two zeros), 0 -> RuntimeError (oracle: not sat), and an
+   oracle answering with a candidate outside the language ("05") -> SyntaxError of the second parse *)
+Example C14_int_value_nonvacuous :
+  int_guard iv_g iv_int = true /\
+  (exists t, int_value true true (hfuel iv_g) iv_g iv_oracle iv_int 5 = Ok t /\ yield t = [43;48;48;53]%N) /\
+  (exists t, int_value true true (hfuel iv_g) iv_g iv_oracle iv_int (-12) = Ok t /\ yield t = [45;48;48;49;50]%N) /\
+  int_value true true (hfuel iv_g) iv_g iv_oracle iv_int 0 = Raise RuntimeErr /\
+  int_value true true (hfuel iv_g) iv_g (fun _ _ => Some (false, 1)) iv_int 5 = Raise SyntaxErr.
+Proof. exact int_value_ex. Qed.
+Print Assumptions C14_int_value_nonvacuous.
+
+(* oracle_complete is a genuine restriction (observed on /repo): for the non-regular
+   <z> ::= "0" <z> "0" | "1" and z = 100 the Z3 query is not sat (the regular expression is a bounded
+   unwinding), RuntimeError is raised, although "00100" is a supported spelling of 100 in L(<z>);
+   with the answer (no plus, two zeros) the same model returns a tree. *)
+Example C14_int_value_runtime_not_complete :
+  int_guard zz_g zz_nt = true /\
+  int_value true true (hfuel zz_g) zz_g (fun _ _ => None) zz_nt 100 = Raise RuntimeErr /\
+  supported 100 [48;48;49;48;48]%N /\ L zz_g zz_nt [48;48;49;48;48]%N /\
+  ~ oracle_complete zz_g (fun _ _ => None) zz_nt /\
+  (exists t, int_value true true (hfuel zz_g) zz_g (fun _ _ => Some (false, 2)) zz_nt 100 = Ok t).
+Proof. exact int_value_runtime_not_complete. Qed.
+Print Assumptions C14_int_value_runtime_not_complete.
